@@ -305,6 +305,11 @@ func init() {
 		if src.reg == nil {
 			return src
 		}
+		if l := st.sub(src.length); l.IsConst() && !src.length.IsConst() {
+			c := *src
+			c.length = l
+			src = &c
+		}
 		if !src.length.IsConst() {
 			// fresh region with the same contents (symbolic length)
 			r := e.newRegion(e.freshName("clone"), src.elem, true)
